@@ -248,9 +248,25 @@ class PathTrees(Trees):
             return self.rvalue(x, depth + 1)
         return self.call(x, depth + 1, bi)
 
-    def decisions(self):
+    VARIANT_INDEX = {'None': 0, 'Some': 1, 'Ok': 0, 'Err': 1}
+
+    def rvalue(self, rv, depth):
+        if rv['k'] == 'discr' and not [e for e in rv['place']['p'] if e != '*']:
+            # discriminant of an Option/Result that this path has just built: a constant
+            ds = [d for d in self.defs.get(rv['place']['l'], []) if d[0] in self.pos]
+            if ds:
+                bi, kind, x = max(ds, key=lambda d: self.pos.get(d[0], -1))
+                if kind == 'assign' and x.get('k') == 'agg' and x.get('adt') in ('core::option::Option', 'core::result::Result'):
+                    v = x.get('variant')
+                    if isinstance(v, int):
+                        return ('val', v)
+                    if v in self.VARIANT_INDEX:
+                        return ('val', self.VARIANT_INDEX[v])
+        return super().rvalue(rv, depth)
+
+    def decisions(self, explicit=False):
         """[(condition tree, value taken)] for every switch on the path; value is the matched constant as a string, or
-        'otherwise'"""
+        'otherwise' (with explicit=True a third component lists the switch's explicit values)"""
         out = []
         for b, nxt in zip(self.path, self.path[1:]):
             t = self.fn.blocks[b]['term']
@@ -262,15 +278,18 @@ class PathTrees(Trees):
                     taken = str(v)
             if taken == 'otherwise' and t.get('otherwise') != nxt:
                 continue
-            out.append((self.operand(t['op']), taken))
+            if explicit:
+                out.append((self.operand(t['op']), taken, [str(v) for v, _ in t.get('targets', [])]))
+            else:
+                out.append((self.operand(t['op']), taken))
         return out
 
     def consistent(self):
         seen = {}
-        for c, v in self.decisions():
+        for c, v, vals in self.decisions(explicit=True):
             if isinstance(c, tuple) and c[0] == 'val':
-                # the tested value is a constant on this path (a flag set in the arm just taken)
-                if (v == 'otherwise') != (c[1] != 0) if v in ('0', 'otherwise') else str(c[1]) != v:
+                # the tested value is a constant on this path (a flag or a variant set in the arm just taken)
+                if (v == 'otherwise' and str(c[1]) in vals) or (v != 'otherwise' and str(c[1]) != v):
                     return False
                 continue
             k = repr(c)
